@@ -96,6 +96,21 @@ func Awkward() []*Grammar {
 			Prods: []*Prod{P("S", Al(Call(A(0)), "Name"), Al(Call(A(0)), "Label")), {Head: "Name", Alts: names}, {Head: "Label", Alts: labels}}})
 	}
 
+	// production names that are prefixes of one another with digits, many alternatives
+	{
+		var many []*Alt
+		for i := 0; i < 13; i++ {
+			many = append(many, &Alt{Syms: []Sym{{Kind: Lit, Name: fmt.Sprintf("s%d", i)}, {Kind: Tok, Name: "id"}}, Action: Call(A(1))})
+		}
+		add(&Grammar{ID: "awk-altnames", Seps: wsSeps,
+			Lex: append(letters(), LexDef{Kind: LexToken, Name: "id", Pattern: `_letter {_letter}`, Samples: []string{"a", "bc"}}, ws()),
+			Prods: []*Prod{P("Prog", Al(Call(A(0)), "Stmt"), Al(Call(A(0), A(1)), "Prog", "Stmt"), Al(Call(A(0), A(1)), "Prog", "Stmt1"), Al(Call(A(0), A(1)), "Prog", "Stmt11"), Al(Call(A(0), A(1)), "Prog", "Stmt_1")),
+				{Head: "Stmt", Alts: many},
+				P("Stmt1", Al(Call(A(1)), `"one"`, "id"), Al(Call(A(1)), `"uno"`, "id")),
+				P("Stmt11", Al(Call(A(1)), `"eleven"`, "id")),
+				P("Stmt_1", Al(Call(A(1)), `"under"`, "id"), Al(Call(A(1)), `"unter"`, "id"))}})
+	}
+
 	// production names that collide with identifiers of the generated code
 	add(&Grammar{ID: "awk-prodnames", Seps: wsSeps,
 		Lex: append(letters(), LexDef{Kind: LexToken, Name: "id", Pattern: `_letter {_letter}`, Samples: []string{"a", "bc"}}, ws()),
